@@ -133,7 +133,12 @@ type PG struct {
 	// wrong-arity call.
 	IllRate int
 	NoProbe bool
-	names   []string
+	// Extra enables forms outside the reference interpreter's grammar
+	// (condition handling, empty loops): used by checks that need no reference.
+	Extra bool
+	// Prefix is prepended to every global name the program defines.
+	Prefix string
+	names  []string
 }
 
 var varNames = []string{"a", "b", "c", "x", "y", "z", "n", "m", "acc", "f", "g", "h", "k", "lst", "v", "w"}
@@ -308,6 +313,23 @@ func (g *PG) Expr(sc *scope, ty Ty, depth int) Val {
 		g.stat("ill-typed")
 		other := Ty(g.n(0, 8, "othertype"))
 		return g.Expr(sc, other, depth-1)
+	}
+	if g.Extra && g.pct(8, "extra") {
+		switch g.n(0, 3, "extraform") {
+		case 0:
+			g.stat("ignore-errors")
+			return L(S("ignore-errors"), g.Expr(sc, TyAny, depth-1), g.Expr(sc, ty, depth-1))
+		case 1:
+			g.stat("handler-bind")
+			h := L(S("lambda"), L(S("c"), S("&rest"), S("d")), g.probe(S("c")))
+			return L(S("handler-bind"), L(L(S("condition"), h)), g.Expr(sc, ty, depth-1))
+		case 2:
+			g.stat("empty-dotimes")
+			return L(S("progn"), L(S("dotimes"), L(S("i"), I(int64(g.n(0, 30, "emptycount"))))), g.Expr(sc, ty, depth-1))
+		default:
+			g.stat("error-form")
+			return L(S("progn"), g.Expr(sc, TyAny, depth-1), L(S("error"), QS("boom"), g.Expr(sc, TyAny, depth-1)))
+		}
 	}
 	switch g.n(0, 19, "form") {
 	case 0, 1:
@@ -944,7 +966,7 @@ func (g *PG) threadForm(sc *scope, ty Ty, depth int) Val {
 func (g *PG) TopForm(depth int) Val {
 	switch g.n(0, 9, "top") {
 	case 0, 1, 2:
-		name := rapid.SampledFrom([]string{"f", "g", "h", "k", "fact", "helper"}).Draw(g.t, "defname")
+		name := g.Prefix + rapid.SampledFrom([]string{"f", "g", "h", "k", "fact", "helper"}).Draw(g.t, "defname")
 		rt := Ty(g.n(1, 5, "ret"))
 		fs, sig, vars := g.formals(name, rt)
 		sig.name = name
@@ -964,7 +986,7 @@ func (g *PG) TopForm(depth int) Val {
 		g.stat("defun")
 		return L(S("defun"), S(name), fs, body)
 	case 3:
-		name := rapid.SampledFrom([]string{"gx", "gy", "gz"}).Draw(g.t, "gname")
+		name := g.Prefix + rapid.SampledFrom([]string{"gx", "gy", "gz"}).Draw(g.t, "gname")
 		ty := Ty(g.n(1, 8, "gty"))
 		init := g.Expr(g.globals, ty, depth-1)
 		g.globals.vars = append(g.globals.vars, varInfo{name: name, ty: ty})
@@ -986,8 +1008,40 @@ func (p Program) Source() string { return RenderProgram(p.Forms) }
 // GenProgram draws a core-language program: up to maxForms top-level forms,
 // node budget, nesting depth.
 func GenProgram(maxForms, budget, depth int) *rapid.Generator[Program] {
+	return genProgram(maxForms, budget, depth, false)
+}
+
+// GenProgramExtra is GenProgram plus condition-handling forms, raised errors and
+// empty loops (no reference interpreter needed by its users).
+func GenProgramExtra(maxForms, budget, depth int) *rapid.Generator[Program] {
+	return genProgram(maxForms, budget, depth, true)
+}
+
+// ProgOpts parameterises GenProgramWith.
+type ProgOpts struct {
+	MaxForms, Budget, Depth int
+	Extra                   bool
+	Prefix                  string
+	NoProbe                 bool
+}
+
+func GenProgramWith(o ProgOpts) *rapid.Generator[Program] {
+	return rapid.Custom(func(t *rapid.T) Program {
+		g := NewPG(t, o.Budget)
+		g.Extra, g.Prefix, g.NoProbe = o.Extra, o.Prefix, o.NoProbe
+		n := rapid.IntRange(1, o.MaxForms).Draw(t, "nforms")
+		var forms []Val
+		for i := 0; i < n; i++ {
+			forms = append(forms, g.TopForm(o.Depth))
+		}
+		return Program{Forms: forms, Stats: g.Stats}
+	})
+}
+
+func genProgram(maxForms, budget, depth int, extra bool) *rapid.Generator[Program] {
 	return rapid.Custom(func(t *rapid.T) Program {
 		g := NewPG(t, budget)
+		g.Extra = extra
 		n := rapid.IntRange(1, maxForms).Draw(t, "nforms")
 		var forms []Val
 		for i := 0; i < n; i++ {
